@@ -86,6 +86,7 @@ func ShapesFor(f Field, c *Counter, gob bool) []Shaped {
 			mk("nl1tagged", ap.NaturalLanguageValues{{Ref: "en", Value: ap.Content("txt-tagged value")}}),
 			mk("nlN", ap.NaturalLanguageValues{{Ref: "en", Value: ap.Content("txt-english")}, {Ref: "fr", Value: ap.Content("txt-french")}}),
 			mk("nl3", ap.NaturalLanguageValues{{Ref: "en", Value: ap.Content("txt-english")}, {Ref: "fr", Value: ap.Content("txt-french")}, {Ref: "de-DE", Value: ap.Content("txt-german")}}),
+			mk("nl-untagged-last", ap.NaturalLanguageValues{{Ref: "en", Value: ap.Content("txt-english")}, {Ref: "fr", Value: ap.Content("txt-french")}, {Ref: ap.NilLangRef, Value: ap.Content("txt-default")}}),
 		}
 		if gob {
 			// a list may hold several values under one tag (the JSON form cannot say that, the binary form must keep it)
